@@ -14,6 +14,7 @@ mod c11;
 mod c12;
 mod c13;
 mod c14;
+mod c15;
 mod cli;
 mod c18;
 #[cfg(feature = "frontend")]
@@ -41,6 +42,7 @@ pub fn replay_dispatch(prop: &str, case: &serde_json::Value) -> Vec<(String, Str
         "C11" => c11::replay(case),
         "C13" => c13::replay(case),
         "C14" => c14::replay(case),
+        "C15" => c15::replay(case),
         "C18" => c18::replay(case),
         #[cfg(feature = "frontend")]
         "C19" => c19::replay(case),
@@ -88,6 +90,7 @@ fn main() {
                 "C12" => c12::run_c12(&run),
                 "C13" => c13::run_c13(&run),
                 "C14" => c14::run_c14(&run),
+                "C15" => c15::run_c15(&run),
                 "C18" => c18::run_c18(&run),
                 #[cfg(feature = "frontend")]
                 "C19" => c19::run_c19(&run),
